@@ -47,7 +47,7 @@ fn main() {
     let mut picked = 0usize;
     let mut index = enumerated;
     let mut kinds = std::collections::BTreeMap::<&'static str, usize>::new();
-    // every layout family (component counts 1, 2, 3, 4 and f64) gets its share: the array casts are monomorphic per layout
+    // every layout family (component counts 1, 2, 3, 4, f64 x 3 and x 4, and the Oklab-based types) gets its share: the array casts are monomorphic per layout
     let mut layouts = std::collections::BTreeMap::<String, usize>::new();
     while picked < want_a && index < enumerated + 60_000 {
         let plan = make_plan(&w, seed, index, Tier::Quick);
@@ -78,7 +78,7 @@ fn main() {
             (true, _) => "single",
             (false, b) => b,
         };
-        if kinds.get(tag).copied().unwrap_or(0) >= want_a.div_ceil(7) || layouts.get(&format!("{layout:?}")).copied().unwrap_or(0) >= want_a.div_ceil(5) {
+        if kinds.get(tag).copied().unwrap_or(0) >= want_a.div_ceil(7) || layouts.get(&format!("{layout:?}")).copied().unwrap_or(0) >= want_a.div_ceil(7) {
             continue;
         }
         *kinds.entry(tag).or_default() += 1;
